@@ -1,2 +1,113 @@
-(** C03 — placeholder until the proofs land (see Proofs/ShardProofs.v). *)
-From Snel Require Import Model.Shard.
+(** C03 — reads see every applied write exactly once at every stage of its flush.
+    This file contains only the property theorems, each closed by [exact],
+    with [Print Assumptions] beneath.  Model: Model/Shard.v (validated against
+    the engine by trace validation); proofs: Proofs/ShardC03Proofs.v.
+
+    Setting: [s := run (init c) ls] for ANY label list [ls] without
+    [LCrash]/[LRestart] ([no_crash ls]) — any interleaving of stores, WAL thread
+    steps, manual flushes and flush-worker stage labels, any number of queued
+    rotations, any capacity [c] — with [applied ls] the events of the [LStore]
+    labels in order, under unique event ids [NoDup (map ek (applied ls))] (C18). *)
+From Coq Require Import NArith List Bool Permutation.
+From Snel Require Import Model.Shard Proofs.ShardC03Proofs.
+Import ListNotations.
+Open Scope N_scope.
+
+(** A selection returns every applied event of the type exactly once, at every
+    reachable state of a crash-free history. *)
+Theorem C03_select_exact : forall c ls u,
+  no_crash ls -> NoDup (map ek (applied ls)) ->
+  Permutation (select (run (init c) ls) u) (of_uid u (applied ls)).
+Proof. exact select_exact. Qed.
+Print Assumptions C03_select_exact.
+
+(** Read-your-writes: an applied event is returned by the selection of its type. *)
+Theorem C03_read_your_writes : forall c ls e,
+  no_crash ls -> NoDup (map ek (applied ls)) ->
+  In e (applied ls) -> In e (select (run (init c) ls) (euid e)).
+Proof. exact read_your_writes. Qed.
+Print Assumptions C03_read_your_writes.
+
+(** Known finding ReadDuringFlushDropsSegmentFlow (confirmed on the engine): while a
+    segment carries the in-flight marker and has no files of the queried type, a
+    possible outcome of the read is the in-memory rows only; an applied event of a
+    complete, published segment is then missing. *)
+Theorem C03_fragile_outcome_refuted :
+  exists c ls u e,
+    let s := run (init c) ls in
+    no_crash ls /\ NoDup (map ek (applied ls)) /\
+    ReadDuringFlushDropsSegmentFlow s u = true /\
+    In e (applied ls) /\ euid e = u /\
+    In (select_mem_only s u) (select_outcomes s u) /\ ~ In e (select_mem_only s u).
+Proof. exact fragile_outcome_refuted. Qed.
+Print Assumptions C03_fragile_outcome_refuted.
+
+(** Outside that class the read has one possible outcome, and it is exact. *)
+Theorem C03_outcomes_exact_outside_known : forall c ls u,
+  no_crash ls -> NoDup (map ek (applied ls)) ->
+  let s := run (init c) ls in
+  ReadDuringFlushDropsSegmentFlow s u = false ->
+  select_outcomes s u = [select s u] /\
+  forall r, In r (select_outcomes s u) -> Permutation r (of_uid u (applied ls)).
+Proof. exact outcomes_exact_outside_known. Qed.
+Print Assumptions C03_outcomes_exact_outside_known.
+
+(** COUNT differs from the number of selected events in two known classes:
+    (a) CountIgnoresTypeInMemory — memory holds an event of another type;
+    (b) CountDuringFlush — between FwPublish and FwClear the rotated events are
+    in the passive copy and in the published segment and are counted twice. *)
+Theorem C03_count_refuted :
+  (exists c ls u, let s := run (init c) ls in
+     no_crash ls /\ NoDup (map ek (applied ls)) /\
+     CountIgnoresTypeInMemory s u = true /\ CountDuringFlush s = false /\
+     count s u <> len (select s u)) /\
+  (exists c ls u, let s := run (init c) ls in
+     no_crash ls /\ NoDup (map ek (applied ls)) /\
+     CountIgnoresTypeInMemory s u = false /\ CountDuringFlush s = true /\
+     jobs s = [mkJob 0 (applied ls) StPublished] /\
+     count s u = 2 /\ len (select s u) = 1).
+Proof. exact count_refuted. Qed.
+Print Assumptions C03_count_refuted.
+
+(** Outside both classes (no in-memory row of another type, no row both in memory
+    and in a scanned segment) COUNT equals the number of selected events, hence
+    (by [C03_select_exact]) the number of applied events of the type. *)
+Theorem C03_count_exact_outside_known : forall c ls u,
+  no_crash ls -> NoDup (map ek (applied ls)) ->
+  let s := run (init c) ls in
+  CountIgnoresTypeInMemory s u = false -> CountDuringFlush s = false ->
+  count s u = len (select s u).
+Proof. exact count_exact_outside_known. Qed.
+Print Assumptions C03_count_exact_outside_known.
+
+(** The class [CountDuringFlush] says exactly: some row is in memory and in a scanned segment. *)
+Theorem C03_CountDuringFlush_spec : forall s,
+  CountDuringFlush s = false <-> forall e, In e (mem_rows s) -> ~ In e (seg_rows s).
+Proof. exact CountDuringFlush_false. Qed.
+Print Assumptions C03_CountDuringFlush_spec.
+
+(** Non-vacuity of the hypotheses: crash-free histories with unique ids and three
+    rotations (one complete, one in flight, one queued) outside the known classes. *)
+Theorem C03_select_exact_example :
+  let s := run (init 2) ls_ex in
+  no_crash ls_ex /\ NoDup (map ek (applied ls_ex)) /\
+  map jstage (jobs s) = [StBegun; StQueued] /\ live s = [0] /\ inflight s = [1] /\
+  select s 0 = [mkEv 2 0 0; mkEv 4 0 0; mkEv 0 1 0] /\
+  select s 1 = [mkEv 5 2 1; mkEv 3 1 1; mkEv 1 0 1].
+Proof. exact select_exact_example. Qed.
+Print Assumptions C03_select_exact_example.
+
+Theorem C03_outcomes_exact_example :
+  let s := run (init 2) ls_ex in
+  no_crash ls_ex /\ NoDup (map ek (applied ls_ex)) /\ inflight s = [1] /\
+  ReadDuringFlushDropsSegmentFlow s 0 = false /\ ReadDuringFlushDropsSegmentFlow s 1 = false.
+Proof. exact outcomes_exact_example. Qed.
+Print Assumptions C03_outcomes_exact_example.
+
+Theorem C03_count_exact_example :
+  let s := run (init 2) ls_ex_count in
+  no_crash ls_ex_count /\ NoDup (map ek (applied ls_ex_count)) /\
+  map jstage (jobs s) = [StQueued; StQueued] /\ live s = [0] /\
+  CountIgnoresTypeInMemory s 0 = false /\ CountDuringFlush s = false /\ count s 0 = 5.
+Proof. exact count_exact_example. Qed.
+Print Assumptions C03_count_exact_example.
